@@ -2,7 +2,7 @@
 //! 252 / 64008 chunk limits x stuff bytes nearby x cut sets x input methods;
 //! alignment family; exhaustive find_stuff_sequence; decoder header space.
 use crate::codec::*;
-use crate::tiny::{dec_case, enc_case, record, CaseId, Focus};
+use crate::tiny::{dec_case, dec_case_expect, enc_case, record, stream_for, CaseId, Focus};
 use mc_core::refcodec;
 use mc_core::*;
 
@@ -203,18 +203,21 @@ fn header_positions(enc: &[u8]) -> Vec<usize> {
             pos += 1;
             s
         } else {
+            if pos + 1 >= enc.len() {
+                break;
+            }
             let s = enc[pos] as usize + 253 * enc[pos + 1] as usize;
             pos += 2;
             s
         };
         first = false;
-        pos += size;
+        pos = pos.saturating_add(size);
     }
     out
 }
 
 fn decode_family(rep: &mut Report, prop: &str, input: &[u8]) {
-    let enc = refcodec::encode(input, refcodec::PROD_FIRST, refcodec::PROD_LATER);
+    let enc = stream_for(input, None);
     let n = enc.len();
     let mut cut_candidates: Vec<usize> = Vec::new();
     for h in header_positions(&enc) {
@@ -231,11 +234,7 @@ fn decode_family(rep: &mut Report, prop: &str, input: &[u8]) {
         rep.evaluations += 1;
         rep.transitions += pieces.len() as u64 + 1;
         let mut obs = Obs::default();
-        let verdict = |obs: &mut Obs| match dec_case(&enc, pieces, None, false, obs) {
-            Ok(true) => Ok(()),
-            Ok(false) => Err("rejected the canonical encoding of an input".to_string()),
-            Err(e) => Err(e),
-        };
+        let verdict = |obs: &mut Obs| dec_case_expect(&enc, pieces, None, false, obs, Some(input)).map(|_| ());
         match verdict(&mut obs) {
             Ok(()) => {
                 if pieces.len() > 1 {
@@ -319,15 +318,13 @@ pub fn alignment_family(ctx: &Ctx, rep: &mut Report, unit: &mut usize) {
                     }
                 }
                 // and the decoder gets it back
-                let enc = refcodec::encode(&input, refcodec::PROD_FIRST, refcodec::PROD_LATER);
+                let enc = stream_for(&input, None);
                 let pieces = [Piece { lo: 0, hi: enc.len(), m: M::Borrow, d: D::None }];
                 rep.evaluations += 1;
                 rep.transitions += 2;
                 let mut obs = Obs::default();
-                match dec_case(&enc, &pieces, None, false, &mut obs) {
-                    Ok(true) => {}
-                    Ok(false) => record(rep, &prop, &CaseId { side: "dec", limits: None, data: &enc, pieces: &pieces, prefill: false }, "rejected the canonical encoding of an input", true),
-                    Err(e) => record(rep, &prop, &CaseId { side: "dec", limits: None, data: &enc, pieces: &pieces, prefill: false }, &e, true),
+                if let Err(e) = dec_case_expect(&enc, &pieces, None, false, &mut obs, Some(&input)) {
+                    record(rep, &prop, &CaseId { side: "dec", limits: None, data: &enc, pieces: &pieces, prefill: false }, &e, true);
                 }
             }
         }
